@@ -472,9 +472,14 @@ pub fn gen_c19(c: &mut Choices) -> Case {
             }
             _ => "",
         };
-        second = match g.c.pick(3) {
+        second = match g.c.pick(4) {
             0 => format!(", ctx: SetupContext<{enc}{slots}>"),
             1 => format!(", {{ emit }}: SetupContext<{enc}{slots}>"),
+            // a defaulted second parameter is annotated all the same
+            3 => {
+                g.label("second-parameter-with-default");
+                format!(", ctx: SetupContext<{enc}{slots}> = {{}}")
+            }
             _ => format!(", {{ emit, attrs }}: SetupContext<{enc}{slots}>"),
         };
     }
